@@ -168,6 +168,17 @@ Proof.
 Qed.
 Print Assumptions C15_supported_set_is_static.
 
+(* a certificate text that cannot be read as a certificate is "another certificate" too: it never verifies,
+   whoever verifies (in particular an entity holding the very key that signed), whatever sigkey is given *)
+Theorem C15_unreadable_cert_never_verifies :
+  forall T st e q sk, verifies (verify_presented T st e q PUnreadable sk) = false.
+Proof.
+  intros T st e q sk. unfold verifies, verify_presented.
+  destruct (verify_redirect_signature T st e q None sk) as [st' [[[|]|]|err]]; cbn [snd fst]; try reflexivity.
+  destruct (str_eqb err KeyError || str_eqb err Unsupported); reflexivity.
+Qed.
+Print Assumptions C15_unreadable_cert_never_verifies.
+
 (* ---- (2) schedules ----
    t_shared actual (regenerated: measured on the real objects on every run) says whether get_signer hands out
    the module-level signer object and stores the caller's key on it (true today) or a fresh object per call.
@@ -261,6 +272,18 @@ Proof.
         | right; split; [reflexivity | exact (C15_own_key_any_schedule_if_fresh_signer actual eq_refl)] ].
 Qed.
 Print Assumptions C15_schedule_status.
+
+(* ---- the FULL statements for the source as it is NOW (after the two fix: commits in /repo, see
+   known_findings.json "fixed").  They are re-checked against the regenerated flags on every run: if
+   get_signer goes back to the shared object, or the two modules' encoders drift apart again, these two
+   obligations break (and the _refuted witnesses above stop being vacuous). ---- *)
+Theorem C15_own_key_any_schedule : own_key_full actual.
+Proof. apply C15_own_key_any_schedule_if_fresh_signer. vm_compute. reflexivity. Qed.
+Print Assumptions C15_own_key_any_schedule.
+
+Theorem C15_own_cert_verifies : own_cert_full actual.
+Proof. apply C15_own_cert_verifies_if_same_encoder; [exact C15_tables | vm_compute; reflexivity]. Qed.
+Print Assumptions C15_own_cert_verifies.
 
 (* ---- non-vacuity: a signed request with RelayState, made through apply_binding by A after B used the
    table, verifies under A, not under B; mutations fail; the hypotheses above are satisfiable ---- *)
